@@ -63,6 +63,7 @@ package callbacks
 //@   ensures begins-at-most-once: begins <= old(begins) + 1
 //@   ensures skip-means-no-begin: old(db.Config.SkipDefaultTransaction) ==> begins == old(begins) [C19,C05]
 //@   ensures pending-error-means-no-begin: old(db.Error) != nil ==> begins == old(begins)
+//@   ensures begin-failure-recorded: begins == old(begins) + 1 && beginErrTag != 0 && !(beginErrTag == tagof(gorm.ErrInvalidTransaction) && beginErrBox == boxof(gorm.ErrInvalidTransaction)) ==> db.Error != nil [C05]
 
 //@ func CommitOrRollbackTransaction
 //@   tags C05
@@ -292,6 +293,13 @@ package callbacks
 //@   min-sites 1
 //@   assert admitted-by-select-omit-and-permission: (has(selectColumns, field.DBName) && selectColumns[field.DBName]) || (!has(selectColumns, field.DBName) && !restricted) [C10]
 //@   assert not-a-key-or-create-time-column: !field.PrimaryKey && field.AutoCreateTime == 0 [C10,C16]
+
+//@ # ---------- C16: the upsert of all columns treats `default:NULL` in any letter case as no default ----------
+//@ site update-all-null-default-any-case
+//@   match call strings.EqualFold
+//@   in callbacks.ConvertToCreateValues
+//@   min-sites 1
+//@   assert compared-with-null: arg1 == "NULL" [C16]
 
 //@ # ---------- C13: association values saved once per operation ----------
 //@ # "Each hook fires exactly once per record": a record reached twice through associations in one Create/Update
